@@ -383,8 +383,15 @@ def coq_eval_terms(name, header, terms, timeout=1200):
             except OSError:
                 pass
 
+    # a vm_compute shard can take 2-3 GB: never start more of them than the free memory allows
+    cap = NPROC
+    try:
+        avail_kb = int([l for l in open("/proc/meminfo") if l.startswith("MemAvailable")][0].split()[1])
+        cap = max(2, min(NPROC, avail_kb // (3 * 1024 * 1024)))
+    except Exception:
+        pass
     while pending or running:
-        while pending and len(running) < NPROC:
+        while pending and len(running) < cap:
             k, term = pending.pop(0)
             running.append(launch(k, term))
         still = []
